@@ -313,3 +313,53 @@ pub fn check_variant(c: &CaseVariant, known: &Known) -> Outcome {
     }
     out
 }
+
+
+// ---------------------------------------------------------------------------------------
+// The same identifier is spelled the same way wherever the statement names it: in the column list of
+// `* EXCLUDE (..)` / `* EXCEPT (..)` (duckdb, snowflake, bigquery) as in a plain select list.
+// Enumerated completely over the hazardous names.
+
+#[derive(Clone, Debug, Serialize, Deserialize)]
+pub struct ExclCase {
+    pub name: String,
+    pub dialect: String,
+}
+
+pub fn exclusion_cases() -> Vec<ExclCase> {
+    let mut v = vec![];
+    for n in crate::model::gen::HAZARD_NAMES {
+        if n.contains('\\') || n.contains('`') {
+            continue;
+        }
+        for d in ["duckdb", "snowflake", "bigquery"] {
+            v.push(ExclCase { name: n.to_string(), dialect: d.into() });
+        }
+    }
+    v
+}
+
+pub fn check_exclusion(c: &ExclCase, _known: &Known) -> Outcome {
+    let d = util::dialect_by_name(&c.dialect);
+    let mut out = Outcome::pass();
+    out.key = hash_of(&(&c.name, &c.dialect));
+    let sel = format!("from t9 | select {{`{}`}}\n", c.name);
+    let exc = format!("from t9 | select !{{`{}`, zz}}\n", c.name);
+    let (Compiled::Sql(s1), Compiled::Sql(s2)) = (util::compile(&sel, d), util::compile(&exc, d)) else {
+        return Outcome::skip("rejected").class("rejected_by_compiler");
+    };
+    // spelling in the plain select list: `SELECT <tok> FROM t9`
+    let Some(tok) = s1.strip_prefix("SELECT ").and_then(|r| r.rsplit_once(" FROM ")).map(|(t, _)| t.trim().to_string()) else {
+        return Outcome::skip("unexpected select shape").class("unexpected_shape");
+    };
+    out.nontrivial = tok != c.name;
+    out.classes.push(format!("exclusion_spelling:{}", c.dialect));
+    out.sample = Some(json!({"name": c.name, "dialect": c.dialect, "select": s1, "exclusion": s2}));
+    if !(s2.contains(&format!("({tok}, zz)")) || s2.contains(&format!("({tok}, \"zz\")")) || s2.contains(&format!("({tok}, `zz`)"))) {
+        return Outcome::fail(
+            "an identifier is spelled differently in the column-exclusion list than in a select list",
+            json!({"name": c.name, "dialect": c.dialect, "spelled_in_select": tok, "select_sql": s1, "exclusion_sql": s2}),
+        );
+    }
+    out
+}
